@@ -28,6 +28,7 @@ func vhRecoverWorld(prev *vhWorld, img map[uuid.UUID]*kit.Image, tag string) *vh
 		w.mon.SharePerAction(prev.mon)
 	}
 	w.vault = kit.NewVault()
+	w.vault.Coarse = prev.vault.Coarse
 	w.vault.SeedImage(p2, img)
 	w.vault.ApplyImage(p2)
 	w.mon.Track(p2)
@@ -58,6 +59,14 @@ func vhCrashRecover(orc int, fam int, mode int, second bool) {
 		vhRetries = api.Choose("retries", 2)
 	}
 	w1 := vhNewWorld(vhCfg(fam), mode, 0)
+	if fam == famSeqSmall && !second && vhRetries == 0 {
+		// the durable image as a clock too coarse to separate any two instants of the run would leave it: every
+		// stored start and end is the same instant (a successful attempt then has End == Start, not End > Start)
+		w1.vault.Coarse = api.Choose("coarse_clock", 2) == 1
+		if w1.vault.Coarse {
+			api.Fact("clock", "coarse")
+		}
+	}
 	init := w1.vault.Snapshot()
 	w1.run(false)
 	api.Quiesce()
@@ -70,6 +79,9 @@ func vhCrashRecover(orc int, fam int, mode int, second bool) {
 	// only plans durably Running are resumed (C11); everything else is left alone
 	api.Assume(img[w1.plan.ID].Status == workflow.Running)
 	api.Reach("crash while the plan is durably Running")
+	if w1.vault.Coarse {
+		api.Reach("crash under a coarse clock")
+	}
 
 	w2 := vhRecoverWorld(w1, img, "r1:")
 	w2.run(true)
